@@ -7,10 +7,11 @@ SumTo(f, n) == IF n = 0 THEN 0 ELSE f[n] + SumTo(f, n - 1)
 Bound == ntok <= MaxTok /\ SumTo(sent, nin) <= MaxSent
 View  == full                      \* obs / nobs are observations, not state
 CTexts == {}
-OpsT3 == {"unreg"}
-OpsQ == {"refuse", "unreg", "relist"}
+OpsT3 == {"unreg", "kill"}
+OpsQ == {"refuse", "unreg", "relist", "kill"}
+OpsP == {"unreg", "direct", "idle"}
 CHRs2 == {<<1, 0>>, <<-1, 0>>}
-OpsAll == {"refuse", "idle", "unreg", "table", "relist"}
+OpsAll == {"refuse", "idle", "unreg", "table", "relist", "kill", "direct"}
 CHRsQ  == {<<0, 0>>, <<1, 0>>, <<-1, 0>>}
 CRVs   == {1, 0, -1}
 CWhats == {-1, 4}
